@@ -62,6 +62,8 @@ class Store:
 
 STORE = Store()
 CALLS = []
+# (operation, object, pool_scope the backend was handed): a pool-aware backend decides by it where to look
+SCOPES_SEEN = []
 
 
 def object_key(params):
@@ -79,6 +81,7 @@ class MemBackend(ss.StateBackend):
 
     @classmethod
     def show(cls, params, object=None):
+        SCOPES_SEEN.append(("show", object_key(params), params.get("pool_scope")))
         return sorted(STORE.entry(object_key(params))["states"])
 
     @classmethod
@@ -89,6 +92,7 @@ class MemBackend(ss.StateBackend):
     def get(cls, params, object=None):
         key, state = object_key(params), params["get_state"]
         CALLS.append(("get", key, state))
+        SCOPES_SEEN.append(("get", key, params.get("pool_scope")))
         if state not in STORE.entry(key)["states"]:
             raise Misuse(f"get of missing state {state} of {key}")
 
@@ -96,6 +100,7 @@ class MemBackend(ss.StateBackend):
     def set(cls, params, object=None):
         key, state = object_key(params), params["set_state"]
         CALLS.append(("set", key, state))
+        SCOPES_SEEN.append(("set", key, params.get("pool_scope")))
         if not STORE.entry(key)["root"]:
             raise Misuse(f"set of state {state} on {key} without root")
         if state in STORE.entry(key)["states"]:
@@ -106,6 +111,7 @@ class MemBackend(ss.StateBackend):
     def unset(cls, params, object=None):
         key, state = object_key(params), params["unset_state"]
         CALLS.append(("unset", key, state))
+        SCOPES_SEEN.append(("unset", key, params.get("pool_scope")))
         if state not in STORE.entry(key)["states"]:
             raise Misuse(f"unset of missing state {state} of {key}")
         STORE.entry(key)["states"].remove(state)
@@ -290,6 +296,8 @@ def build_params(case):
         params[f"images_{vm}"] = " ".join(case["images"][vm])
     params["states_chain"] = "nets vms images"
     params["states_nets"] = params["states_vms"] = params["states_images"] = "mem"
+    if case.get("pool_scope"):
+        params["pool_scope"] = case["pool_scope"]
     if case.get("skip_types"):
         params["skip_types"] = " ".join(case["skip_types"])
     op = case["op"]
@@ -339,6 +347,7 @@ def run_case(case, store_spec):
     global STORE
     STORE = Store(store_spec)
     del CALLS[:]
+    del SCOPES_SEEN[:]
     model_store = Store(store_spec)
     model_calls, outcome = model_run(case, model_store)
     model_calls = normalise(model_calls)
@@ -372,6 +381,14 @@ def run_case(case, store_spec):
     elif observed != outcome:
         problem = (f"outcome differs: real {str(observed).split(':')[0]} vs model {outcome}",
                    f"real outcome {observed}, model {outcome}; real calls {CALLS}; model calls {model_calls}")
+    if problem is None and case.get("pool_scope"):
+        # listing, fetching, saving and removing a state must reach the backend with the configured scope (only the forced
+        # creation of a root is local by design): a pool-aware backend looks into other places with another scope
+        EVALS["scope_observations"] += len(SCOPES_SEEN)
+        wrong = [entry for entry in SCOPES_SEEN if entry[2] != case["pool_scope"]]
+        if wrong:
+            problem = ("a state operation reached the backend with another pool_scope than the configured one",
+                       f"configured {case['pool_scope']!r}; {wrong[:3]}")
     return problem, after
 
 
@@ -450,6 +467,8 @@ def random_call(rng, vms, images, op=None, hostile=True):
         objects_outside = {}
     objects.update(objects_outside)
     case = {"op": op, "vms": vms, "images": images, "objects": objects}
+    if rng.random() < 0.5:
+        case["pool_scope"] = rng.choice(["own", "own shared", "own swarm cluster shared", "swarm shared"])
     if rng.random() < 0.25:
         case["skip_types"] = rng.sample(["nets", "nets/vms", "nets/vms/images"], rng.randint(1, 2))
     return case
@@ -536,6 +555,7 @@ def main():
         verdict.case(signature=["seq", sequence, first_store], nontrivial=True)
         verdict.count("sequences")
     verdict.count("icontract_postconditions_evaluated", EVALS["postconditions"])
+    verdict.count("pool_scope_observations", EVALS["scope_observations"])
     verdict.extra["enumerated_table_complete"] = True
     sys.exit(verdict.finish(min_counters=["icontract_postconditions_evaluated", "enumerated_single_calls", "sequence_steps"]))
 
